@@ -261,7 +261,11 @@ def _tdens(sr, rng):
 
 
 def random_cases(rng, tier):
-    n_clip, n_spec, n_res = (700, 150, 120) if tier == "quick" else (6000, 1200, 900)
+    n_clip, n_spec, n_res, n_rec = (700, 150, 120, 40) if tier == "quick" else (6000, 1200, 900, 300)
+    for _ in range(n_rec):
+        fr, te = rng.choice(_RATES)
+        yield _case("rec", fr, te, 4 * (fr * te[0] // te[1]), rng.choice([1, 2, 3]), rng.choice([1, 2, rng.randrange(3, 400)]),
+                    src="rec", fmt=rng.choice(["PCM_16", "FLOAT"]))
     for _ in range(n_clip):
         fr, te = rng.choice(_RATES)
         sr = fr * te[0] // te[1]
